@@ -19,6 +19,7 @@ _add("C03", "bounded symbolic verification of the group-action laws (associativi
 _add("C05", "bounded symbolic verification: all words over {a,b,A,B} up to length 4 (quick) / 5 (thorough) with symbolic invertible generator matrices; every derived representation against an independent reference; Fox fundamental formula and cocycle annihilation")
 _add("C16", "bounded symbolic verification of chart conversions (real and complex, dimensions 1..3 / 1..5), chart membership path analysis, affine maps, subspace intersection with a null-space stub")
 _add("C17", "bounded symbolic verification: homomorphism / identity / determinant / invariant-form identities for sl2_irrep (n<=6), sl2_to_so21, gln/sln adjoint (n<=3), slc_to_slr, sl2c_to_so31, block_include and the lie.hom wrappers, single matrices and stacks")
+_add("C12", "bounded symbolic verification of invariance under independent per-unit homogeneous rescalings (symbolic non-zero factors of either sign): model coordinates, distances, segment ideal endpoints, circle centre/radius, tangent direction against an independent reference, images under transformations, polygon edges, origin_to targets; n<=2 (quick) / n<=3 (thorough).  The number-packaging half of C12 is outside this technique (stated in the evidence)")
 NA = {}
 def main():
     checks = []
